@@ -79,7 +79,7 @@ var_opt_union<T, A>& var_opt_union<T, A>::operator=(const var_opt_union& other) 
   std::swap(outer_tau_numer_, union_copy.outer_tau_numer_);
   std::swap(outer_tau_denom_, union_copy.outer_tau_denom_);
   std::swap(max_k_, union_copy.max_k_);
-  std::swap(allocator_, other.allocator_);
+  std::swap(allocator_, union_copy.allocator_);
   std::swap(gadget_, union_copy.gadget_);
   return *this;
 }
@@ -157,7 +157,7 @@ var_opt_union<T, A> var_opt_union<T, A>::deserialize(std::istream& is, const Ser
     if (!is.good())
       throw std::runtime_error("error reading from std::istream"); 
     else
-      return var_opt_union(max_k);
+      return var_opt_union(max_k, allocator);
   }
 
   const auto items_seen = read<uint64_t>(is);
@@ -202,7 +202,7 @@ var_opt_union<T, A> var_opt_union<T, A>::deserialize(const void* bytes, size_t s
   bool is_empty = flags & EMPTY_FLAG_MASK;
 
   if (is_empty) {
-    return var_opt_union(max_k);
+    return var_opt_union(max_k, allocator);
   }
 
   ensure_minimum_memory(size, PREAMBLE_LONGS_NON_EMPTY << 3);
